@@ -47,7 +47,7 @@ def render(events, ctx=None, which="last"):
     ind = 1
     nloop = 0
     uses = [i for i, e in enumerate(events) if e["k"] in ("use", "wt")]
-    wrapped = set(uses[-1:] if which == "last" else uses) if ctx else set()
+    wrapped = set(uses[-1:] if which == "last" else uses) if ctx and ctx != "inif" else set()
     for ei, e in enumerate(events):
         pad = "    " * ind
         k = e["k"]
@@ -77,6 +77,10 @@ def render(events, ctx=None, which="last"):
             out.append("%smutI(&'%s);" % (pad, e["pl"]))
         elif k == "ts":
             out.append("%sreadI(&%s);" % (pad, e["pl"]))
+        elif k == "cdef":
+            out += [pad + "let f1 := fn() -> i32 {", pad + "    return %s;" % e["pl"], pad + "};"]
+        elif k == "ccall":
+            out.append(pad + "io::Println(f1());")
         elif k == "open":
             out.append(pad + "{")
             ind += 1
@@ -93,6 +97,9 @@ def render(events, ctx=None, which="last"):
             ind -= 1
             out.append("    " * ind + "}")
     out.append("}")
+    if ctx == "inif" or which == "inif":
+        # every declaration and statement of the program inside a branch (nothing lives in the function's first block)
+        out = [out[0], "    if yes() {"] + ["    " + l for l in out[1:-1]] + ["    }", "}"]
     return HEAD + "\n".join(out) + "\n"
 
 
@@ -127,7 +134,7 @@ def ev_key(events):
             return "rb(%s,%s)" % (e["r"], e["s"])
         if k in ("use", "wt"):
             return "%s(%s)" % (k, e["r"])
-        if k in ("rd", "wr", "tm", "ts"):
+        if k in ("rd", "wr", "tm", "ts", "cdef"):
             return "%s(%s)" % (k, e["pl"])
         return k
     return ";".join(one(e) for e in events)
@@ -139,6 +146,8 @@ def finding_class(events):
     tags = []
     if "bc" in ks:
         return "call-returned-ref"       # one class (KNOWN_FINDINGS exclusion predicate: any bc event)
+    if "cdef" in ks:
+        tags.append("closure")
     if "rb" in ks:
         tags.append("ref-copy")
     if "loop" in ks:
@@ -196,6 +205,11 @@ def run(tier, seed, replay=None):
         withuse = [c for c in cases if c["verdict"] != "either" and any(e["k"] in ("use", "wt") for e in c["events"])]
         per = {}
         nvar = 0
+        for c in [c for c in cases if any(e["k"] == "cdef" for e in c["events"]) and c["verdict"] != "either"]:
+            v = dict(c)
+            v["ctx"], v["which"] = "inif", "last"
+            v["key"] = c["key"] + "@inif/last"
+            cases.append(v)
         for c in withuse:
             k = (finding_class(c["events"]), c["verdict"])
             per[k] = per.get(k, 0) + 1
@@ -255,7 +269,9 @@ def run(tier, seed, replay=None):
                      {"events_key": c["key"], "program": c["_src"]})
     # write-through visibility on legal, accepted programs
     rnd.shuffle(runnable)
-    runnable = runnable[:150 if tier == "quick" else 3000]
+    clo = [c for c in runnable if any(e["k"] == "cdef" for e in c["events"])]
+    rest = [c for c in runnable if c not in clo]
+    runnable = clo[:120 if tier == "quick" else 2000] + rest[:150 if tier == "quick" else 3000]
 
     def runit(c):
         exe = c["_p"][:-4] + ".out"
